@@ -304,7 +304,9 @@ where
     // just beyond the list, around the machine-word sizes, aliases of the valid indices modulo
     // 64 / 2^32, and the largest values
     let mut js: Vec<usize> = vec![n, n + 1, 63, 64, 65, 127, 128, 129, 1usize << 32, (1usize << 32) + 1, usize::MAX, usize::MAX - 1];
-    for i in 0..n {
+    // (for expressions with many variables: the first, a middle and the last valid index)
+    let valid: Vec<usize> = if n <= 4 { (0..n).collect() } else { vec![0, n / 2, n - 1] };
+    for &i in &valid {
         js.extend([64 + i, 128 + i, (1usize << 32) + i, usize::MAX - 63 + i]);
     }
     if seq.len() > 1 {
@@ -329,7 +331,7 @@ where
             }
         }
         let mut bad_seqs = vec![vec![j]];
-        for i in 0..n {
+        for &i in &valid {
             bad_seqs.extend([vec![i, j], vec![j, i], vec![i, i, j]]);
             if near(j) {
                 bad_seqs.push(vec![i, j, i]);
@@ -465,6 +467,16 @@ pub fn run(tier: Tier) -> i32 {
     let m = Bookkeeping { texts: Arc::new(texts), max_len: if tier.thorough() { 5 } else { 4 } };
     let st = explore(m, &mut rep, "c09", &format!("{n_texts} base expressions x flat/deep"));
     rep.count("unique_states", st.unique as u64);
+    // more variables than the inline capacity of the variable lists (16), names shared between
+    // the operands of a product / sum
+    let many: Vec<(&'static str, usize, bool)> = vec![
+        ("a*s+(b*c*d*f*g*h*i*j*k*l*m*n*o*p*q*r*s)", 18, true),
+        ("(a+b+c+d+f+g+h+i+s)*(j+k+l+m+n+o+p+q+r+s)", 18, true),
+        ("a+b*c+d+f*g+h+i+j*k+l+m+n*o+p+q+r*a+s+t", 19, true),
+        ("s*a*s+b+c+d+f+g+h+i+j+k+l+m+n+o+p+(q-r*s)", 18, true),
+    ];
+    let m = Bookkeeping { texts: Arc::new(many), max_len: if tier.thorough() { 3 } else { 2 } };
+    explore(m, &mut rep, "c09", "4 base expressions with 18..19 variables x flat/deep");
     crate::derived::run_derived(&mut rep, "C09", crate::derived::Focus::Diff, tier.thorough());
     rep.finish()
 }
